@@ -108,7 +108,9 @@ pub fn run_batch(args: BatchArgs) -> i32 {
         }
         let seed = args.run_seed(run);
         let case = gen_case1(&prop, seed, run);
+        simcore::watchdog::begin_case(seed, serde_json::json!({"l1": case}));
         let ex = exec(&case, None);
+        simcore::watchdog::end_case();
         b.res.runs += 1;
         b.res.ops += ex.ops_done as u64;
         b.res.sim_ns += ex.sim_ns as i128;
